@@ -37,6 +37,9 @@ def tasks(tier, seed):
     for e in broad:
         hs = [list(x) for x in props.head_sigs(e["text"])]
         out.append(props.base_task(dict(e, out=hs, outs=None), "all", "inout", tier, costs=False))
+        if e.get("out") is not None and e.get("out") != hs and e.get("V") != "show" and e.get("in") != "auto":
+            # the declaration the program came with: predicates outside it may be removed, names must still not clash
+            out.append(props.base_task(dict(e, outs=None), "all", "inout", tier, costs=False))
     return out
 
 
